@@ -38,9 +38,11 @@ try:
         res['apply_error'] = out[-400:]
         raise SystemExit
     rc, out = sh([os.path.join(V, 'tools/baseline.py'), wt])
-    if rc != 0:
-        # the suite has a few hypothesis tests with deadlines that fail under machine load: retry once
-        time.sleep(5)
+    for _ in range(3):
+        if rc == 0:
+            break
+        # the suite has a few hypothesis tests with deadlines that fail under machine load: retry
+        time.sleep(20)
         rc, out = sh([os.path.join(V, 'tools/baseline.py'), wt])
     res['suite'] = out.strip().split('\n')[-1] if rc == 0 else out.strip()[-400:]
     res['suite_passes'] = rc == 0
